@@ -134,6 +134,20 @@ func c14Obs(p mq.Packet) string {
 }
 
 func c14Mutators(p mq.Packet) []sop {
+	if _, ok := p.(*mq.Subscribe); ok {
+		// a SUBSCRIBE is changed through its filter list as well
+		return []sop{
+			{Name: "SetPacketID(77)", Call: func(q any) { q.(*mq.Subscribe).SetPacketID(77) }},
+			{Name: "AddFilters(late/one)", Call: func(q any) { q.(*mq.Subscribe).AddFilters(mq.NewTopicFilter("late/one", 2)) }},
+			{Name: "Filters()[0].SetOptions(0)+SetFilter", Call: func(q any) {
+				if fs := q.(*mq.Subscribe).Filters(); len(fs) > 0 {
+					fs[0].SetOptions(0)
+					fs[0].SetFilter("edited/in/place")
+				}
+			}},
+			{Name: "AddUserProp", Call: func(q any) { q.(*mq.Subscribe).AddUserProp("late", "prop") }},
+		}
+	}
 	name := strings.TrimPrefix(fmt.Sprintf("%T", p), "*mq.")
 	var out []sop
 	for _, o := range alphabet(name) {
@@ -226,6 +240,7 @@ func c14Run(pf *poolFrames, ops []poolOp, seq []int, globals0 digest.Sum) (f *co
 					p = bind.New(pf.types[o.Frame])
 				}
 				body := buf[pf.hdr[o.Frame]:n]
+				alignPublishFlags(p, fr[0])
 				res = guarded(stepBudget(n), func() { err = p.UnmarshalBinary(body) })
 				if pf.types[o.Frame] == 3 && err == nil {
 					// the flags nibble is not part of the body: compare only what the body carries
@@ -249,6 +264,7 @@ func c14Run(pf *poolFrames, ops []poolOp, seq []int, globals0 digest.Sum) (f *co
 			n := copy(buf, fr)
 			p := pool[o.Slot]
 			var err error
+			alignPublishFlags(p, fr[0])
 			res := guarded(stepBudget(n), func() { err = p.UnmarshalBinary(buf[pf.hdr[o.Frame]:n]) })
 			if res.Panic != "" || res.Budget || err != nil {
 				return mk("decode-into-used-packet-fails/"+bind.TypeNames[pf.types[o.Frame]], fmt.Sprintf("%v %s", err, res.Panic)), true
@@ -350,6 +366,17 @@ func c14Run(pf *poolFrames, ops []poolOp, seq []int, globals0 digest.Sum) (f *co
 	return nil, true
 }
 
+// alignPublishFlags: the layout of a PUBLISH body depends on the QoS bits of
+// the first byte, which UnmarshalBinary does not see: a caller that decodes
+// bodies itself has to hand the flags over through the setters first.
+func alignPublishFlags(p mq.Packet, first byte) {
+	if q, ok := p.(*mq.Publish); ok {
+		q.SetQoS((first >> 1) & 3)
+		q.SetDuplicate(first&8 != 0)
+		q.SetRetain(first&1 != 0)
+	}
+}
+
 // forwardCopy builds a new packet of p's type with the constructor and
 // copies every field that has a Set<Name>(string|[]byte) setter and a
 // <Name>() accessor of the same type.
@@ -378,6 +405,23 @@ func forwardCopy(p mq.Packet) mq.Packet {
 			continue
 		}
 		set.Call(get.Call(nil))
+	}
+	// lists are forwarded with the spread form of the adders
+	switch src := p.(type) {
+	case *mq.Subscribe:
+		np.(*mq.Subscribe).AddFilters(src.Filters()...)
+	case *mq.Unsubscribe:
+		for _, f := range src.Filters() {
+			np.(*mq.Unsubscribe).AddFilter(f)
+		}
+	case *mq.SubAck:
+		for _, c := range src.ReasonCodes() {
+			np.(*mq.SubAck).AddReasonCode(mq.ReasonCode(c))
+		}
+	case *mq.UnsubAck:
+		for _, c := range src.ReasonCodes() {
+			np.(*mq.UnsubAck).AddReasonCode(mq.ReasonCode(c))
+		}
 	}
 	return np
 }
